@@ -1,7 +1,7 @@
 """Per-property obligation modules for Engine B."""
 import importlib
 
-PROPS = ["C01", "C02", "C03", "C06", "C07", "C08", "C09", "C16", "C05", "C11", "C13", "C17", "C19"]
+PROPS = ["C01", "C02", "C03", "C06", "C07", "C08", "C09", "C12", "C16", "C05", "C11", "C13", "C17", "C19"]
 
 
 def load(pid):
@@ -10,7 +10,7 @@ def load(pid):
 
 # module-path fragments whose bodies every Engine B property may need (one compiler run serves
 # all of them)
-COMMON_FILTERS = ["flush_worker", "store::insert", "flush_manager", "segment_index", "segment_index_builder", "handover", "temporal_pruner", "aggregate::ops", "condition_evaluator_builder",
+COMMON_FILTERS = ["flush_worker", "store::insert", "flush_manager", "segment_index", "segment_index_builder", "handover", "temporal_pruner", "shard::manager", "dispatch::streaming", "aggregate::ops", "condition_evaluator_builder",
                   "wal_cleaner", "inner_wal_writer", "wal_handle", "segment::lifecycle",
                   "compaction_worker", "auth::", "handlers::", "command::dispatcher",
                   "command::parser", "json_command", "shard::worker", "shard::context",
